@@ -158,10 +158,6 @@ func fillContainers(containers map[*container.Container][]string) error {
 }
 
 func (s *State) apply(args []string, pc matcher.ParseContext) bool {
-	if s.Terminal && len(args) == 0 {
-		return true
-	}
-
 	if len(args) > 0 {
 		arg := args[0]
 
@@ -169,6 +165,11 @@ func (s *State) apply(args []string, pc matcher.ParseContext) bool {
 			pc.RejectOptions = true
 			args = args[1:]
 		}
+	}
+
+	// only test for the end after a leading -- was dropped: it may have been the last argument
+	if s.Terminal && len(args) == 0 {
+		return true
 	}
 
 	type match struct {
